@@ -159,6 +159,13 @@ func c03RunOpt(env world.Env, files []c03File, extraGauge bool, reg3 bool, raise
 // atomGauge: a further gauge holding 8 utiny over 8 days, so that a reward block releases a third denomination of
 // which a prover's share truncates to zero while its ujkl and uatom shares are positive.
 func c03RunOpt2(env world.Env, files []c03File, extraGauge bool, reg3 bool, raiseWindow bool, atomGauge bool) mc.CaseResult {
+	return c03RunOpt3(env, files, extraGauge, reg3, raiseWindow, atomGauge, day)
+}
+
+// step: the time between blocks. With 11-day blocks the 30-day plan and its payment gauge have run out before the
+// reward block under test (the gauge is swept at height 6), so that block finds no gauge at all: it has nothing to
+// pay, and still has to strike off whoever missed the window.
+func c03RunOpt3(env world.Env, files []c03File, extraGauge bool, reg3 bool, raiseWindow bool, atomGauge bool, step time.Duration) mc.CaseResult {
 	w := env.W()
 	cr := mc.CaseResult{Class: "reward-block"}
 	u := w.A("U").Bech
@@ -226,7 +233,7 @@ func c03RunOpt2(env world.Env, files []c03File, extraGauge bool, reg3 bool, rais
 		}
 	}
 	for h := 3; h <= 5; h++ {
-		if bp := env.NextBlock(day); bp != nil {
+		if bp := env.NextBlock(step); bp != nil {
 			cr.Viols = append(cr.Viols, viol("no-panic", "block-panic", "%s", bp.Value))
 			return cr
 		}
@@ -256,7 +263,7 @@ func c03RunOpt2(env world.Env, files []c03File, extraGauge bool, reg3 bool, rais
 		setStorageParams(env, func(p *storagetypes.Params) { p.ProofWindow = 10 })
 	}
 	for h := 6; h <= 7; h++ {
-		if bp := env.NextBlock(day); bp != nil {
+		if bp := env.NextBlock(step); bp != nil {
 			cr.Viols = append(cr.Viols, viol("no-panic", "block-panic", "%s", bp.Value))
 			return cr
 		}
@@ -273,7 +280,7 @@ func c03RunOpt2(env world.Env, files []c03File, extraGauge bool, reg3 bool, rais
 		a, _ := storagetypes.GetGaugeAccount(g)
 		gaugeAccs[a.String()] = true
 	}
-	if bp := env.NextBlock(day); bp != nil {
+	if bp := env.NextBlock(step); bp != nil {
 		cr.Viols = append(cr.Viols, viol("no-panic", "block-panic", "%s", bp.Value))
 		return cr
 	}
@@ -404,6 +411,13 @@ func c03Enum(thorough bool) mc.Enum {
 							e.Cases = append(e.Cases, mc.Case{Desc: fmt.Sprintf("one|%s|size=%d|extraGauge=%v|reg3=%v|proofType=1", failDesc(l, fail), size, extra, reg3), Run: func(env world.Env) mc.CaseResult {
 								return c03Run(env, []c03File{{f: bySize[size], size: size, list: l, fail: fail, proofType: 1}}, extra, reg3)
 							}})
+							e.Cases = append(e.Cases, mc.Case{Desc: fmt.Sprintf("one|%s|size=%d|extraGauge=%v|reg3=%v|gaugesEnded", failDesc(l, fail), size, extra, reg3), Run: func(env world.Env) mc.CaseResult {
+								r := c03RunOpt3(env, []c03File{{f: bySize[size], size: size, list: l, fail: fail}}, extra, reg3, false, false, 11*day)
+								if n := len(env.W().App.StorageKeeper.GetAllPaymentGauges(env.Ctx())); n != 0 {
+									panic(fmt.Sprintf("harness: %d gauges left although every paid term has run out", n))
+								}
+								return r
+							}})
 							e.Cases = append(e.Cases, mc.Case{Desc: fmt.Sprintf("one|%s|size=%d|extraGauge=%v|reg3=%v|atomGauge", failDesc(l, fail), size, extra, reg3), Run: func(env world.Env) mc.CaseResult {
 								return c03RunOpt2(env, []c03File{{f: bySize[size], size: size, list: l, fail: fail}}, extra, reg3, false, true)
 							}})
@@ -469,7 +483,7 @@ func c03Enum(thorough bool) mc.Enum {
 func init() {
 	CaseReplayers["C03/reward-block"] = func(r *mc.Run, c string) { r.ReplayCase(c03Enum(true), c) }
 	Props["C03"] = Prop{Level: "model_checking", Run: func(r *mc.Run, tier string) {
-		r.Rules = append(r.Rules, "bounded-exhaustive construction of the state at a reward block through real messages and blocks: every ordering of every non-empty subset of {P1,P2,P3} as prover list x every subset missing the last window x sizes {1,7,1000} x {2,3} gauges (one with two denominations) x young-file variant; two files x all list/fail combinations over 2 (thorough: 3) provers; thorough adds an unregistered prover. Non-trivial = at least one prover missed the window")
+		r.Rules = append(r.Rules, "bounded-exhaustive construction of the state at a reward block through real messages and blocks: every ordering of every non-empty subset of {P1,P2,P3} as prover list x every subset missing the last window x sizes {1,7,1000} x {2,3} gauges (one with two denominations) x young-file variant; the same with 11-day blocks, so that every payment gauge has run out and been swept before the reward block under test; two files x all list/fail combinations over 2 (thorough: 3) provers; thorough adds an unregistered prover. Non-trivial = at least one prover missed the window")
 		r.Assumptions = append(r.Assumptions, "the denominator of a share may be all listed bytes or all credited bytes (both size-weighted); one denominator for all provers is demanded", "ProofWindow 3, CheckWindow 2, 1-day blocks")
 		dl := time.Now().Add(50 * time.Second)
 		if tier == "thorough" {
